@@ -124,6 +124,7 @@ impl Peer {
             let mut flood: Option<(u64, usize, Instant)> = None;
             let mut answer_size: Option<(u16, u16, u16, u16)> = None;
             let mut tail: Vec<u8> = vec![]; // last bytes, to find a request split across reads
+            let mut size_tail: Vec<u8> = vec![];
             let mut quiet_since: Option<Instant> = None;
             let mut buf = vec![0u8; 1 << 16];
             loop {
@@ -169,14 +170,30 @@ impl Peer {
                         r2.lock().unwrap().extend_from_slice(data);
                         c2.fetch_add(got as usize, Ordering::SeqCst);
                         if let Some((rows, cols, ph, pw)) = answer_size {
-                            // (queries split across two reads are not looked for: the library writes them together)
-                            let has = |n: &[u8]| data.windows(n.len()).filter(|w| *w == n).count();
-                            for _ in 0..has(b"\x1b[18t") {
-                                write_all_fd(fd, format!("\x1b[8;{};{}t", rows, cols).as_bytes());
+                            // a query may be split across two reads: the last bytes of the previous read are kept
+                            let mut scan = size_tail.clone();
+                            scan.extend_from_slice(data);
+                            let old = size_tail.len();
+                            // answered in the order of the requests
+                            let mut i = 0;
+                            while i + 5 <= scan.len() {
+                                let new = i + 5 > old;
+                                if &scan[i..i + 5] == b"\x1b[18t" {
+                                    if new {
+                                        write_all_fd(fd, format!("\x1b[8;{};{}t", rows, cols).as_bytes());
+                                    }
+                                    i += 5;
+                                } else if &scan[i..i + 5] == b"\x1b[14t" {
+                                    if new {
+                                        write_all_fd(fd, format!("\x1b[4;{};{}t", ph, pw).as_bytes());
+                                    }
+                                    i += 5;
+                                } else {
+                                    i += 1;
+                                }
                             }
-                            for _ in 0..has(b"\x1b[14t") {
-                                write_all_fd(fd, format!("\x1b[4;{};{}t", ph, pw).as_bytes());
-                            }
+                            let keep = scan.len().min(4);
+                            size_tail = scan[scan.len() - keep..].to_vec();
                         }
                         if answer_da {
                             let mut scan = tail.clone();
